@@ -173,15 +173,53 @@ def facts(repo):
     rel = "cubed/runtime/executors/local.py"
     t = _parse(repo, rel)
     fn = _func(t, "threads_create_futures_func", rel)
-    d = _default(fn, "retries", rel)
+
+    # tolerant reading: a default may be a literal or the name of a module-level integer constant; the option may be popped
+    # directly (`kwargs.pop("retries", d)`) or by a module-level helper that is handed `kwargs` and pops it.  (Whether such
+    # a helper treats an explicit 0 correctly is a question for the oracle, not for the extractor.)
+    consts = {}
+    for node in t.body:
+        if isinstance(node, ast.Assign) and len(node.targets) == 1 and isinstance(node.targets[0], ast.Name) \
+                and isinstance(node.value, ast.Constant):
+            consts[node.targets[0].id] = node.value.value
+
+    def value_of(node):
+        if isinstance(node, ast.Constant):
+            return node.value
+        if isinstance(node, ast.Name) and node.id in consts:
+            return consts[node.id]
+        return ExtractError
+
+    def default_of(fnode, arg):
+        a = fnode.args
+        pos = a.posonlyargs + a.args
+        for x, dflt in list(zip(pos[len(pos) - len(a.defaults):], a.defaults)) + list(zip(a.kwonlyargs, a.kw_defaults)):
+            if x.arg == arg and dflt is not None:
+                v = value_of(dflt)
+                if v is not ExtractError:
+                    return v
+        raise ExtractError(f"{rel}: default of {fnode.name}({arg}) not found")
+
+    def is_pop_retries(n):
+        return isinstance(n, ast.Call) and isinstance(n.func, ast.Attribute) and n.func.attr == "pop" and n.args \
+            and isinstance(n.args[0], ast.Constant) and n.args[0].value == "retries"
+
+    poppers = {f.name for f in t.body if isinstance(f, ast.FunctionDef) and any(is_pop_retries(n) for n in ast.walk(f))}
+
+    def pops_retries(node):
+        return any(is_pop_retries(n) or (isinstance(n, ast.Call) and isinstance(n.func, ast.Name) and n.func.id in poppers
+                                        and any(_src(a) == "kwargs" for a in n.args))
+                   for n in ast.walk(node))
+
+    d = default_of(fn, "retries")
     if not isinstance(d, int) or isinstance(d, bool) or d < 0:
         raise ExtractError(f"{rel}: retries default {d!r}")
     pops = []
     for node in ast.walk(t):
-        if isinstance(node, ast.Call) and _src(node.func) == "kwargs.pop" and node.args \
-                and isinstance(node.args[0], ast.Constant) and node.args[0].value == "retries":
-            if len(node.args) == 2 and isinstance(node.args[1], ast.Constant):
-                pops.append(node.args[1].value)
+        if is_pop_retries(node) and len(node.args) == 2:
+            v = value_of(node.args[1])
+            if v is not ExtractError and v is not None:
+                pops.append(v)
     if pops and any(p != d for p in pops):
         raise ExtractError(f"{rel}: retries defaults disagree: {d} vs {pops}")
     put("defaultRetries", "Nat", str(d), rel + ":threads_create_futures_func(retries=)")
@@ -228,9 +266,7 @@ def facts(repo):
     pops_everywhere = True
     for cls in t.body:
         if isinstance(cls, ast.ClassDef) and cls.name == "ProcessesExecutor":
-            pops_everywhere = any(isinstance(n, ast.Call) and _src(n.func) == "kwargs.pop" and n.args
-                                  and isinstance(n.args[0], ast.Constant) and n.args[0].value == "retries"
-                                  for n in ast.walk(cls))
+            pops_everywhere = pops_retries(cls)
     put("processesPopRetries", "Bool", b(pops_everywhere), rel + ":ProcessesExecutor._async_execute_dag kwargs.pop('retries', ·)")
     if wrapper is None:
         put("processesHaveRetry", "Bool", "false", rel + ":processes_create_futures_func")
@@ -238,7 +274,7 @@ def facts(repo):
         put("procRetryExtraAttempts", "Nat", "0", rel + ":processes_create_futures_func (no retry wrapper)")
         put("procRetriesZeroSkipsWrapper", "Bool", "false", rel + ":processes_create_futures_func (no retry wrapper)")
     else:
-        pd = _default(fnp, "retries", rel)
+        pd = default_of(fnp, "retries")
         if not isinstance(pd, int) or isinstance(pd, bool) or pd < 0:
             raise ExtractError(f"{rel}: processes retries default {pd!r}")
         pextra, pzero = policy(wrapper, wrapper.name)
